@@ -129,6 +129,7 @@ type evDeep struct {
 	salt []byte
 	info []byte
 	Tok  string `class:"sensitive,hmac-sha256"`
+	Sec  string `class:"secret,hmac-sha256"`
 	P    *evItem
 	L    []evItem
 	M    map[string]interface{}
@@ -142,11 +143,18 @@ func H_C16_event_material_everywhere() {
 	ctx := context.Background()
 	w := mkWrapper("w0")
 	ef := &Filter{Wrapper: w, HmacSalt: []byte{1}, HmacInfo: []byte{4}}
+	// with the sensitive class overridden to redact no class-level operation needs key material any more, but a field whose
+	// tag names the operation itself still does — the event's
+	sensRedacted := nondetBool()
+	if sensRedacted {
+		ef.FilterOperationOverrides = map[DataClassification]FilterOperation{SensitiveClassification: RedactOperation}
+	}
 	id := nondetString()
 	verifAssume(id != "")
 	es, ei := []byte{7}, []byte{8}
 	a, b, c, d, f := nondetString(), nondetString(), nondetString(), nondetString(), nondetString()
-	in := &evDeep{id: id, salt: es, info: ei, Tok: a, P: &evItem{H: b}, L: []evItem{{H: c}},
+	sec := nondetString()
+	in := &evDeep{id: id, salt: es, info: ei, Tok: a, Sec: sec, P: &evItem{H: b}, L: []evItem{{H: c}},
 		M: map[string]interface{}{"one": &evItem{H: d}, "many": []evItem{{H: f}}}}
 	out, err := ef.Process(ctx, newEvent(in))
 	if err != nil || out == nil {
@@ -162,6 +170,11 @@ func H_C16_event_material_everywhere() {
 		return
 	}
 	want := func(raw string) string { return refHmac(ew.(*aead.Wrapper), es, ei, []byte(raw)) }
+	verifAssert(op.Sec == want(sec), "C16.everywhere.tag-level-operation-under-the-events-material")
+	if sensRedacted {
+		verifReach("C16.everywhere.redacted-class")
+		return
+	}
 	verifAssert(op.Tok == want(a), "C16.everywhere.direct-field")
 	verifAssert(op.P.H == want(b), "C16.everywhere.behind-pointer")
 	verifAssert(op.L[0].H == want(c), "C16.everywhere.slice-of-structs")
